@@ -42,6 +42,7 @@ type dmaSub struct {
 	cp   *dmaCopy
 
 	sendSeq int
+	sendNs  int
 }
 
 type dmaCopy struct {
@@ -67,7 +68,7 @@ type dmaMon struct {
 	late   map[string]bool // sub-requests of copies that were already answered
 	order  []*dmaSub       // sub-requests in issue order; head = oldest possibly unanswered
 	head   int
-	done   []*dmaCopy      // answered copies, in answer order (consumed by the driver-level check)
+	done   []*dmaCopy // answered copies, in answer order (consumed by the driver-level check)
 }
 
 type taskEv struct {
@@ -152,6 +153,9 @@ func (m *copyMon) onPort(e simkit.Event) {
 		if strings.HasPrefix(e.Port, "cpDrv/") && e.Kind == simkit.KSend {
 			if g, ok := e.Msg.(*sim.GeneralRsp); ok {
 				if f, ok := g.OriginalReq.(*protocol.FlushReq); ok {
+					if debugTrace {
+						fmt.Printf("FLUSH done t=%.0f %s\n", float64(e.Time)*1e9, e.Port)
+					}
 					if _, dup := m.flushDone[f]; dup {
 						m.viol("C11|cp|flush-answered-twice", "a command processor answered one flush request twice", map[string]any{"port": e.Port})
 					}
@@ -162,6 +166,9 @@ func (m *copyMon) onPort(e simkit.Event) {
 		if e.Port == "drv" && e.Kind == simkit.KSend {
 			if _, ok := e.Msg.(*protocol.FlushReq); ok {
 				m.count("flush_requests_sent", 1)
+				if debugTrace {
+					fmt.Printf("FLUSH sent t=%.0f\n", float64(e.Time)*1e9)
+				}
 			}
 		}
 		return
@@ -247,7 +254,7 @@ func (m *copyMon) onPort(e simkit.Event) {
 				m.viol("C11|dma|write-data-not-source-slice", fmt.Sprintf("DMA write of [0x%x,+%d) does not carry bytes [%d,%d) of the copy's source", a, n, off, off+n), wit(map[string]any{"addr": a, "len": n}))
 			}
 		}
-		s := &dmaSub{id: e.Msg.Meta().ID, addr: a, n: n, cp: owner, sendSeq: e.Seq}
+		s := &dmaSub{id: e.Msg.Meta().ID, addr: a, n: n, cp: owner, sendSeq: e.Seq, sendNs: int(float64(e.Time)*1e9 + 0.5)}
 		if len(owner.subs) == 0 {
 			owner.firstSub = e.Seq
 		}
@@ -286,13 +293,20 @@ func (m *copyMon) onPort(e simkit.Event) {
 		}
 		if d.head < len(d.order) && d.order[d.head] != s {
 			m.count("dma_responses_out_of_issue_order", 1)
-			if d.order[d.head].cp == s.cp {
-				m.count("dma_responses_out_of_issue_order_within_one_copy", 1)
+			if debugTrace {
+				fmt.Printf("OOO t=%.0f gpu%d sub@0x%x (copy 0x%x) before 0x%x (copy 0x%x)\n", float64(e.Time)*1e9, g, s.addr, s.cp.addr, d.order[d.head].addr, d.order[d.head].cp.addr)
+			}
+			if d.order[d.head].cp != s.cp {
+				m.count("dma_responses_out_of_issue_order_across_copy_requests", 1)
 			}
 		}
 		if d.head > 4096 && d.head*2 > len(d.order) {
 			d.order = append([]*dmaSub(nil), d.order[d.head:]...)
 			d.head = 0
+		}
+		if debugTrace {
+			lat := int(float64(e.Time)*1e9+0.5) - s.sendNs
+			latHist[min(lat/10, 49)]++
 		}
 		s.done = true
 		s.data = append([]byte(nil), data...)
@@ -673,6 +687,8 @@ func (m *copyMon) findDMACopy(r *drvReq, take bool) *dmaCopy {
 	}
 	return nil
 }
+
+var latHist [50]int
 
 var debugTrace = os.Getenv("C11_DEBUG") != ""
 
